@@ -10,6 +10,7 @@ from ..oracles import as_real_array
 PROP = "C17"
 LEVEL = "exploration"
 SHARDS = {"quick": 2, "thorough": 16}
+THOROUGH_DEPTH = 60      # thorough tier = this many times the base thorough budget (VERIF_DEPTH overrides)
 ROUTES = ["geodetic<->ecef", "ecef<->enu", "enu<->aer", "enu<->dca", "ned<->enu", "llf<->ecef", "geodetic2enu"]
 LAT_REGIONS = ["lat:generic", "lat:equator", "lat:near-equator", "lat:pole", "lat:near-pole"]
 REGIONS = {r: 50 for r in LAT_REGIONS}
